@@ -38,6 +38,7 @@ fn run_line(line: &str) -> String {
         "HTTP" => http::run(&ws[1..]),
         "DECODE" => http::decode(&ws[1..]),
         "BUILT" => http::built(&ws[1..]),
+        "ILV" => http::interleave(&ws[1..]),
         "DBG" => dbg::run(&ws[1..]),
         "DBGPH" => dbg::dbgph(&ws[1..]),
         _ => proto::BAD.into(),
